@@ -55,8 +55,16 @@ func c02Scenarios() []hpScenario {
 }
 
 func c02Run(p *vreport.Part, sc hpScenario, replay bool) bool {
+	return c02RunX(p, sc, replay, 0, nil)
+}
+
+// c02RunX: c02Run with an execution cap of its own (0: the default) and additional oracles.
+func c02RunX(p *vreport.Part, sc hpScenario, replay bool, maxExecs int, extra func(p *vreport.Part, sc *hpScenario, obs *hpObs, report func(kind, detail string))) bool {
 	obs := &hpObs{}
-	opts := vrt.Options{Bound: sc.Bound, Delay: true, MaxSteps: 300000, MaxExecs: vreport.Pick(40000, 400000), Deadline: time.Now().Add(30 * time.Minute)}
+	if maxExecs == 0 {
+		maxExecs = vreport.Pick(40000, 400000)
+	}
+	opts := vrt.Options{Bound: sc.Bound, Delay: true, MaxSteps: 300000, MaxExecs: maxExecs, Deadline: time.Now().Add(30 * time.Minute)}
 	if replay {
 		opts.Replay = true
 		opts.Prefix = sc.Choices
@@ -160,6 +168,9 @@ func c02Run(p *vreport.Part, sc hpScenario, replay bool) bool {
 					report("forwarded header-only request carries a body", fmt.Sprintf("conn %d: header token %q body token %q", ui, f.Token, f.BodyToken))
 				}
 			}
+		}
+		if extra != nil {
+			extra(p, &sc, obs, report)
 		}
 	})
 	p.AddTraces(st.Executions)
